@@ -221,6 +221,21 @@ def domain(ctx):
         cases.append({"term": ("add", ("mul", C(a), C(0.5)), C(b)), "ctx": {}})
         cases.append({"term": ("pow", C(a), C(-1)), "ctx": {}})
         cases.append({"term": ("pow", C(0.5), C(abs(int(b)) if b == int(b) else 2)), "ctx": {}})
+    # division whose operands come out of ^ or abs (numpy-typed intermediates must still give NaN on a zero divisor)
+    for x in (0.0, 1.5, -2.5, 0, 2):
+        for y in (0.0, 3, 0):
+            cases.append({"term": ("div", C(1), ("pow", V("x"), C(2))), "ctx": {"x": x}})
+            cases.append({"term": ("div", ("pow", V("x"), C(2)), C(0)), "ctx": {"x": x}})
+            cases.append({"term": ("div", C(3), ("abs", V("x"))), "ctx": {"x": x}})
+            cases.append({"term": ("div", ("abs", V("x")), ("sub", V("y"), V("y"))), "ctx": {"x": x, "y": y}})
+            cases.append({"term": ("div", ("pow", V("x"), C(2)), ("mul", V("y"), C(0))), "ctx": {"x": x, "y": y}})
+            cases.append({"term": ("add", ("div", ("neg", ("pow", V("x"), C(3))), ("pow", V("y"), C(2))), C(1)), "ctx": {"x": x, "y": y}})
+    # factorials feeding arithmetic beyond 64 bits
+    for n in (15, 18, 20):
+        cases.append({"term": ("mul", ("fact", C(n)), V("x")), "ctx": {"x": 20}})
+        cases.append({"term": ("mul", ("fact", C(n)), ("fact", C(n))), "ctx": {}})
+        cases.append({"term": ("add", ("add", ("fact", C(n)), ("fact", C(n))), ("add", ("fact", C(20)), ("fact", C(20)))), "ctx": {}})
+        cases.append({"term": ("sub", ("neg", ("fact", C(n))), ("mul", ("fact", C(20)), C(7))), "ctx": {}})
     # missing / None / zero bindings, also behind a zero factor or in an untaken-looking position
     shapes = [lambda: ("add", V("x"), V("y")), lambda: ("mul", ("sub", V("x"), V("x")), V("y")), lambda: ("mul", V("y"), ("sub", V("x"), V("x"))),
               lambda: ("mul", C(0), V("y")), lambda: ("pow", V("y"), C(0)), lambda: ("pow", C(1), V("y")), lambda: ("sub", V("y"), V("y")),
